@@ -153,7 +153,7 @@ func valCons(v int) sdk.ConsAddress {
 
 // ---------------------------------------------------------------- input
 type bhInstr struct {
-	Op    string    `json:"op"` // sstore log revert balance call pcall
+	Op    string    `json:"op"` // sstore log revert balance call pcall selfdestruct (T = beneficiary; ends the frame)
 	K     uint64    `json:"k,omitempty"`
 	V     uint64    `json:"v,omitempty"`
 	T     int       `json:"t,omitempty"` // balance / call target (actor)
@@ -734,6 +734,8 @@ func (r *Replica) encodeProgram(body []bhInstr) ([]byte, error) {
 			out = append(out, encRevert()...)
 		case "balance":
 			out = append(out, encBalance(actorAddr(in.T).Bytes())...)
+		case "selfdestruct":
+			out = append(out, encSelfdestruct(actorAddr(in.T).Bytes())...)
 		case "call":
 			var flags byte
 			if in.Catch {
